@@ -2,6 +2,7 @@ import VncModel.Update.USpecProofs
 import VncModel.Update.CopyOrder
 import VncModel.Update.Defer
 import VncModel.Update.Refine
+import VncModel.Update.RefineEnv
 import VncModel.Leaf.EquivUpdate
 /-!
 # C02 — Clients converge to the framebuffer: no lost, stale or spurious updates
@@ -209,6 +210,20 @@ theorem model_idle_converged (scr : Screen) (fb0 pic0 : Pix → V) (t : MState V
     ∀ p, S scr p → t.pic p = t.fb p :=
   VncModel.Update.Refine.model_idle_converged scr fb0 pic0 t h hM hC
 
+/-- **… also while the pointer moves and the knobs change**: the same for any interleaving of model
+operations with changes of the screen's pointer position, cursor shape / hot spot, progressive
+slice height and maxRectsPerUpdate (`EStep.env`: anything but the framebuffer size) -/
+theorem model_converges_env (scr0 : Screen) (fb0 pic0 : Pix → V) (y : Screen × MState V)
+    (h : EReach (scr0, ⟨newClient scr0, fb0, pic0⟩) y) :
+    WFc y.2.c ∧ Inv (S y.1) (absS y.2.c y.2.fb y.2.pic) :=
+  model_inv_env scr0 fb0 pic0 y h
+
+theorem model_idle_converged_env (scr0 : Screen) (fb0 pic0 : Pix → V) (y : Screen × MState V)
+    (h : EReach (scr0, ⟨newClient scr0, fb0, pic0⟩) y)
+    (hM : y.2.c.M.isEmpty = true) (hC : y.2.c.C.isEmpty = true) :
+    ∀ p, S y.1 p → y.2.pic p = y.2.fb p :=
+  VncModel.Update.Refine.model_idle_converged_env scr0 fb0 pic0 y h hM hC
+
 /-! ### Non-vacuity of the refinement theorems -/
 
 /-- a 4×3 screen with a 2×2 cursor, slicing and coalescing switched on -/
@@ -217,6 +232,20 @@ def scrEx : Screen :=
     progSlice := 2, maxRects := 1 }
 
 example : WFc (newClient scrEx) := newClient_wf scrEx
+
+/-- a history with a pointer move between a request and the update (hypothesis of `model_converges_env`) -/
+example (fb pic : Pix → Nat) :
+    EReach (scrEx, ⟨newClient scrEx, fb, pic⟩)
+      ({ scrEx with cursorX := 3, cursorY := 2 },
+       ⟨(sendUpdate { scrEx with cursorX := 3, cursorY := 2 }
+          (request scrEx (newClient scrEx) false 0 0 4 3)).1, fb,
+        afterSend fb pic (sendUpdate { scrEx with cursorX := 3, cursorY := 2 }
+          (request scrEx (newClient scrEx) false 0 0 4 3)).2⟩) :=
+  EReach.tail
+    (EReach.tail
+      (EReach.tail (EReach.refl _) (EStep.op _ _ _ (MStep.request _ fb pic false 0 0 4 3)))
+      (EStep.env scrEx { scrEx with cursorX := 3, cursorY := 2 } _ rfl rfl))
+    (EStep.op _ _ _ (MStep.send _ fb pic))
 
 /-- a copy whose source lies on the screen (hypotheses of `refines_copy`) -/
 example : (Region.rect 1 1 3 3).WF ∧
